@@ -144,7 +144,12 @@ def views(SA, footprint, analytic, ctx="generic", **kw):
     return S, [PathView(S, r) for r in rets]
 
 
-def pick(vs, clamp=(False, False), shifted=None):
+DEFAULT_CLAMP = (False, False)  # the thorough tier re-evaluates every rule for each clamp outcome
+
+
+def pick(vs, clamp="default", shifted=None):
+    if clamp == "default":
+        clamp = DEFAULT_CLAMP
     out = []
     for v in vs:
         if clamp is not None and v.clamp_state() != clamp:
@@ -510,13 +515,14 @@ def neutralise_source(x, S):
     return x.subs(m) if m else x
 
 
-def mirror_map(S, x, axis):
+def mirror_map(S, x, axis, view=None):
     """(k_axis, wind_axis) -> -(k_axis, wind_axis) on the atoms of x"""
     w = S.u.sym if axis == "x" else S.v.sym
+    n_eff = (view.nlx_eff if axis == "x" else view.nly_eff) if view is not None else (S.nlx if axis == "x" else S.nly)
     m = {}
     for a in x.atoms():
         if a.kind == "fn" and a.name == "at" and a.args[0].eq(w):
             m[a] = -alg.atom_expr(a)
-        if a.kind == "fn" and a.name == "fftidx" and a.args[0].eq(S.nlx if axis == "x" else S.nly):
+        if a.kind == "fn" and a.name == "fftidx" and a.args[0].eq(n_eff):
             m[a] = -alg.atom_expr(a)
     return m
